@@ -216,7 +216,7 @@ pub fn observed_payload(a: &Analysis, pay: PayId) -> HashMap<Inst, u32> {
 /// Direct-child runs of the bracket of `d` whose observation carries the delivery's key, per instance.
 pub fn observed_inline(a: &Analysis, d: &Delivery) -> HashMap<Inst, u32> {
     let mut m = HashMap::new();
-    for r in a.runs.iter() {
+    for r in a.runs_in(d.pre, d.post).iter() {
         if r.pos > d.pre && r.pos < d.post && r.parent == Some(d.cmd) && !r.replay && keys_of_obs(&r.obs).contains(&d.key) {
             *m.entry(r.inst).or_insert(0) += 1;
         }
